@@ -269,6 +269,43 @@ def read_literal_typing(mod: ast.Module):
         fail(find_func(chk, "check"), "ExprChecker.check on an already typed expression")
 
 
+def read_generic_folds(mod: ast.Module, checker_path: Path):
+    """Positions where ONE type variable meets several expressions: ExprChecker.visit_Tuple (tuple literal
+    against tuple[..T..T..]), type_check_args (f(x, y) with f(a: T, b: T)), NewArrayChecker.synthesize
+    (array(x, y)).  Each must thread the substitution found so far into the type the next expression is
+    checked against; whether it does is DATA for the first two (-> gen_*_substituted), shape for the array."""
+    chk = find_class(mod, "ExprChecker")
+    vt = [ast.unparse(s) for s in strip_doc(find_func(chk, "visit_Tuple").body)]
+    head = ["if not isinstance(ty, TupleType) or len(ty.element_types) != len(node.elts):\n    return self._fail(ty, node)",
+            "subst: Subst = {}"]
+    loops = {True: "for i, el in enumerate(node.elts):\n    node.elts[i], s = self.check(el, ty.element_types[i].substitute(subst))\n    subst |= s",
+             False: "for i, el in enumerate(node.elts):\n    node.elts[i], s = self.check(el, ty.element_types[i])\n    subst |= s"}
+    if len(vt) != 4 or vt[:2] != head or vt[3] != "return (node, subst)" or vt[2] not in loops.values():
+        fail(find_func(chk, "visit_Tuple"), "ExprChecker.visit_Tuple (element loop)")
+    tup = vt[2] == loops[True]
+    tca = find_func(mod, "type_check_args")
+    fors = [s for s in strip_doc(tca.body) if isinstance(s, ast.For)]
+    if len(fors) != 1 or ast.unparse(fors[0].target) != "(inp, func_inp)" or ast.unparse(fors[0].iter) != "zip(inputs, func_ty.inputs, strict=True)":
+        fail(tca, "type_check_args argument loop")
+    b = [ast.unparse(x) for x in fors[0].body[:2]]
+    forms = {True: "a, s = ExprChecker(ctx).check(inp, func_inp.ty.substitute(subst), 'argument')",
+             False: "a, s = ExprChecker(ctx).check(inp, func_inp.ty, 'argument')"}
+    if len(b) != 2 or b[0] not in forms.values() or b[1] != "subst |= s":
+        fail(fors[0], "type_check_args argument check")
+    args = b[0] == forms[True]
+    # ExprChecker.check against an unsolved variable synthesises and solves it
+    ck = ast.unparse(find_func(chk, "check"))
+    if "if isinstance(ty, ExistentialTypeVar):\n        expr, syn_ty = self._synthesize(expr, allow_free_vars=False)\n        return (with_type(syn_ty, expr), {ty: syn_ty})" not in ck:
+        fail(find_func(chk, "check"), "ExprChecker.check against an ExistentialTypeVar")
+    cmod = parse_file(checker_path)
+    na = ast.unparse(find_func(find_class(cmod, "NewArrayChecker"), "synthesize"))
+    for need in ("case [fst, *rest]:", "fst, ty = ExprSynthesizer(self.ctx).synthesize(fst)", "checker = ExprChecker(self.ctx)",
+                 "for i in range(len(rest)):\n                rest[i], subst = checker.check(rest[i], ty)"):
+        if need not in na:
+            fail(find_func(find_class(cmod, "NewArrayChecker"), "synthesize"), f"NewArrayChecker.synthesize lost `{need}`")
+    return tup, args
+
+
 def translate(ctx) -> str:
     t4 = c04()
     util = t4.read_util(ctx.int_src("std/_internal/util.py"))
@@ -278,6 +315,7 @@ def translate(ctx) -> str:
     cmp_, recv, name_of, tgt = read_try_coerce(mod)
     fb = read_cta_tail(mod)
     read_literal_typing(mod)
+    tup_sub, args_sub = read_generic_folds(mod, ctx.int_src("std/_internal/checker.py"))
     ucmp = read_unify_numeric(ctx.int_src("tys/ty.py"))
     out = [
         "(* GENERATED on every run from tys/ty.py, checker/expr_checker.py, std/num.py, std/_internal/util.py",
@@ -296,6 +334,9 @@ def translate(ctx) -> str:
         f"Definition gen_coerce_target : who := {tgt}.    (* f.check_call([node], <target>, node, ctx) *)",
         f"Definition gen_unify_numeric : cmpop := {ucmp}.   (* unify(exp, act) on two NumericTypes succeeds iff act.kind <cmp> exp.kind *)",
         f"Definition gen_cta_fallback : cta_fallback := {fb}.   (* check_type_against when unify(exp, act) fails *)",
+        "(* does the element / argument loop check the next expression against the type with the substitution found so far applied? *)",
+        f"Definition gen_tuple_elems_substituted : bool := {'true' if tup_sub else 'false'}.   (* ExprChecker.visit_Tuple *)",
+        f"Definition gen_args_substituted : bool := {'true' if args_sub else 'false'}.   (* type_check_args *)",
         "Definition gen_methods : list meth := [",
         ";\n".join(rows),
         "].",
